@@ -481,3 +481,73 @@ Definition recv_limit_after (tls13 : bool) (own : Z) : Z :=
 (* what the client accepts in the server's extension *)
 Definition ext_acceptable (tls13 : bool) (client : bool) (ext : Z) : bool :=
   if client then (64 <=? ext) && (ext <=? (if tls13 then 16385 else 16384)) else 64 <=? ext.
+
+(* ---- readAsync(max, min) when the peer may close ------------------------------------------------ *)
+(* AClose: the peer's close_notify (or an abrupt close with ignoreAbruptClose): _shutdown() sets
+   `closed`, the loop of readAsync ends and what is buffered is still handed out, now and by later calls *)
+Inductive arrival := AData (p : list Z) | AClose.
+
+Fixpoint fill_buffer_c (fuel : nat) (min : Z) (try_once : bool) (buf : list Z) (closed : bool)
+         (arr : list arrival) : list Z * bool * list arrival :=
+  match fuel with
+  | O => (buf, closed, arr)
+  | S f =>
+      if ((zlen buf <? min) || ((zlen buf =? 0) && try_once)) && negb closed then
+        match arr with
+        | [] => (buf, closed, [])
+        | AData a :: rest => fill_buffer_c f min false (buf ++ a) closed rest
+        | AClose :: rest => (buf, true, rest)
+        end
+      else (buf, closed, arr)
+  end.
+
+Definition read_call_c (max : option Z) (min : Z) (buf : list Z) (closed : bool) (arr : list arrival)
+  : list Z * list Z * bool * list arrival :=
+  let '(b1, cl, rest) := fill_buffer_c (S (length arr)) min true buf closed arr in
+  let m := match max with None => zlen b1 | Some v => v end in
+  (ztake m b1, zdrop m b1, cl, rest).
+
+Fixpoint read_calls_c (calls : list (option Z * Z)) (buf : list Z) (closed : bool) (arr : list arrival)
+  : list (list Z) * list Z * bool * list arrival :=
+  match calls with
+  | [] => ([], buf, closed, arr)
+  | (mx, mn) :: cs =>
+      let '(out, b1, cl, rest) := read_call_c mx mn buf closed arr in
+      let '(outs, b2, cl2, rest2) := read_calls_c cs b1 cl rest in
+      (out :: outs, b2, cl2, rest2)
+  end.
+
+Fixpoint data_of (arr : list arrival) : list Z :=
+  match arr with
+  | [] => []
+  | AData a :: r => a ++ data_of r
+  | AClose :: r => data_of r
+  end.
+
+(* ---- key epochs of TLS 1.3 KeyUpdate (RFC 8446 7.2) and the defragmenter across a key change -------- *)
+(* next : application_traffic_secret_N -> _N+1 (HKDF-Expand-Label(.., "traffic upd"));
+   the N-th KeyUpdate of a direction installs keys derived from generation N *)
+Fixpoint generation {S : Type} (next : S -> S) (s0 : S) (n : nat) : S :=
+  match n with O => s0 | S k => next (generation next s0 k) end.
+
+(* bytes waiting in the defragmenter (alert / handshake / CCS buffers together), each tagged with the
+   key epoch of the record that carried it; a read-key change is allowed only when nothing is waiting
+   (_getFinished: `if not self._defragmenter.is_empty(): unexpected_message`; TLS 1.3: _getMsg) *)
+Inductive dstep :=
+| DRecord (bytes : list Z)          (* a record of the current epoch adds its bytes *)
+| DMessage (n : nat)                (* a complete message of n bytes is taken out and yielded *)
+| DKeyChange.                       (* ChangeCipherSpec / Finished / KeyUpdate processed *)
+
+Definition dstate := (nat * list (Z * nat) * list (nat * list (Z * nat)))%type.   (* epoch, waiting, yielded (epoch at yield, bytes) *)
+
+Definition defrag_step (st : option dstate) (e : dstep) : option dstate :=
+  match st with
+  | None => None                                   (* fatal alert already sent *)
+  | Some (ep, waiting, out) =>
+      match e with
+      | DRecord bs => Some (ep, waiting ++ map (fun b => (b, ep)) bs, out)
+      | DMessage n => if (n <=? length waiting)%nat
+                      then Some (ep, skipn n waiting, out ++ [(ep, firstn n waiting)]) else Some (ep, waiting, out)
+      | DKeyChange => match waiting with [] => Some (S ep, [], out) | _ => None end
+      end
+  end.
